@@ -85,6 +85,7 @@ def run(ctx):
     ctx.rule = ('triangles from orientation classes (random, axis-aligned, normal-component-sum zero, negative sum, 1e-2 and 50x '
                 'scale) x rays (inside, outside, behind the origin, parallel, grazing), batch sizes 1-5, both APIs; non-trivial = '
                 'non-parallel ray; distinct by (class, ray kind, coordinates)')
+    exact_parallel_cases(ctx)
     NT = ctx.n(60, 600)
     lines, cases = [], []
     for _ in range(NT):
@@ -218,6 +219,43 @@ def run(ctx):
                     if flag != (inside_margin > 0):
                         ctx.violation('numpy intersect_w_triangle flag %s but point is %s' % (flag, 'inside' if inside_margin > 0 else 'outside'),
                                       rec, {'api': 'numpy', 'fn': 'intersect_w_triangle', 'what': 'flag'})
+
+
+def exact_parallel_cases(ctx):
+    """rays EXACTLY parallel to an axis-aligned triangle's plane (n.d == 0 in floating point), offset from it and lying in it:
+    they must be flagged (non-finite point, no hit flag) by every entry point of both APIs"""
+    import odak.learn.raytracing as LR
+    import odak.raytracing as NR
+    for axis in range(3):
+        for zc in (0.0, 2.0, -3.5):
+            tri = np.zeros((3, 3))
+            u, v = (axis + 1) % 3, (axis + 2) % 3
+            tri[:, axis] = zc
+            tri[0, u], tri[0, v] = -1.0, -1.0
+            tri[1, u], tri[1, v] = 2.0, -1.0
+            tri[2, u], tri[2, v] = -1.0, 2.0
+            for off in (1.0, -0.5, 0.0):
+                o = np.zeros(3); o[axis] = zc + off; o[u], o[v] = -0.2, -0.3       # inside the triangle's shadow
+                for dd in ((1.0, 0.0), (0.0, 1.0), (0.6, 0.8)):
+                    d = np.zeros(3); d[u], d[v] = dd
+                    rec = {'class': 'exact_parallel', 'triangle': tri.tolist(), 'ray': [o.tolist(), d.tolist()], 'offset': off}
+                    ctx.case(('exact_parallel', axis, zc, off, dd), True)
+                    ctx.count('ray/exact_parallel' + ('_in_plane' if off == 0 else ''))
+                    rt = torch.tensor(np.array([o, d]), dtype=torch.float32)
+                    tt = torch.tensor(tri, dtype=torch.float32)
+                    for name, call in (('intersect_w_triangle', lambda: LR.intersect_w_triangle(rt, tt)),
+                                       ('intersect_w_triangle_batch', lambda: LR.intersect_w_triangle_batch(rt.unsqueeze(0), tt.unsqueeze(0)))):
+                        nrm, dist, _, _, chk = call()
+                        pt = nrm.reshape(-1, 2, 3)[0, 0].numpy()
+                        if np.all(np.isfinite(pt)) or bool(chk.reshape(-1)[0]):
+                            ctx.violation('torch %s gives a ray parallel to the plane the coordinates %s (hit flag %s) instead of flagging it'
+                                          % (name, pt.tolist(), bool(chk.reshape(-1)[0])), rec,
+                                          {'api': 'torch', 'fn': name, 'what': 'parallel', 'in_plane': off == 0})
+                    nn, nd = NR.intersect_w_surface(np.array([o, d]), tri.copy())
+                    pt = np.asarray(nn, dtype=np.float64).reshape(2, 3)[0]
+                    if np.all(np.isfinite(pt)):
+                        ctx.violation('numpy intersect_w_surface gives a ray parallel to the plane the coordinates %s' % pt.tolist(), rec,
+                                      {'api': 'numpy', 'fn': 'intersect_w_surface', 'what': 'parallel', 'in_plane': off == 0})
 
 
 def replay(ctx, rep):
